@@ -108,7 +108,7 @@ impl<'a> S<'a> {
                 self.w(args.len().to_string());
                 for a in args { self.expr(a); }
             }
-            Constructor(t, slots) => { self.w("Ctor"); self.ty(*t); self.w(slots.len().to_string()); for s in slots { self.w(s.arity.to_string()); self.expr(&s.expr); } }
+            Constructor(t, slots) => { self.w("Ctor"); self.ty(*t); self.w(slots.len().to_string()); for s in slots { self.w(s.arity.to_string()); } for s in slots { self.expr(&s.expr); } }
             Cast(t, x) => { self.w("Cast"); self.ty(*t); self.expr(x); }
             SizeOf(t) => { self.w("SizeOf"); self.ty(*t); }
             IntrinsicOp(op, args) => { self.w(format!("Op {:?} {}", op, args.len())); for a in args { self.expr(a); } }
